@@ -123,6 +123,7 @@ pub enum LdapError { DecodingUTF8, InvalidScopeString(String), UnrecognizedCriti
 pub type Result<T> = core::result::Result<T, LdapError>;
 #[verifier::external_body]
 pub fn verif_string_of(s: &str) -> (r: String) ensures r@ == s@ { unimplemented!() }
+pub assume_specification<'a> [<String as From<&'a str>>::from] (s: &str) -> (r: String) ensures r@ == s@;
 
 //@item file=src/search.rs kind=enum name=Scope
 //@item file=src/util.rs kind=enum name=LdapUrlExt retype="Cow<'a, str> => Cow<'a>"
@@ -381,7 +382,6 @@ pub proof fn theorem_ext_round_trip(crit: bool, id: Seq<char>, val: Option<Seq<c
 //@ sub ".split(" => ".verif_split(" count=*
 //@ sub ".collect()" => ".verif_collect()" count=*
 //@ sub "|_| " => "|_e| " count=*
-//@ sub "any.into()" => "verif_string_of(any)"
 //@ sub "HashSet::new()" => "ExtSet::new()" count=*
 //@ sub "id.is_empty()" => "verif_is_empty(id)" count=*
 //@ sub "&id[..1] == \"!\"" => "verif_first_is(id, \"!\")" count=*
